@@ -1919,14 +1919,15 @@ func (r *Resolvable) walkArray(arr *Array, value *astjson.Value) bool {
 		err := r.walkNode(arr.Item, arrayValue)
 		r.popArrayPathElement()
 		if err {
-			if arr.Item.NodeKind() == NodeKindObject && arr.Item.NodeNullable() {
+			if (arr.Item.NodeKind() == NodeKindObject || arr.Item.NodeKind() == NodeKindArray) && arr.Item.NodeNullable() {
 				value.SetArrayItem(r.astjsonArena, i, astjson.NullValue)
 				continue
 			}
-			if arr.Nullable {
+			if arr.Nullable && len(arr.Path) > 0 {
 				astjson.SetNull(r.astjsonArena, parent, arr.Path...)
 				return false
 			}
+			// a nullable list without a path is a list item: the enclosing list nulls it
 			return err
 		}
 	}
